@@ -395,7 +395,10 @@ impl Sk {
             }
         }
         let r = match recv {
-            Some(e) => format!("{}.", last_field(e)),
+            Some(e) => {
+                let lf = last_field(e);
+                format!("{}.", if self.mode == Mode::Ptr { ptr_alias(&lf) } else { lf })
+            }
             None => String::new(),
         };
         let detail = match self.mode {
@@ -692,6 +695,68 @@ fn unwrap_expr(e: &Expr) -> &Expr {
 }
 
 thread_local! {
+    /// names of locals and fields that hold a Signal or a MaybeUninit (pointer mode): name -> canonical name,
+    /// so that renaming `sig` / `ret` / `data` does not change the actions of a dispatch leaf
+    static PTR_ALIAS: std::cell::RefCell<BTreeMap<String, String>> = std::cell::RefCell::new(BTreeMap::new());
+}
+
+fn ptr_alias(name: &str) -> String {
+    PTR_ALIAS.with(|m| m.borrow().get(name).cloned()).unwrap_or_else(|| name.to_string())
+}
+
+fn learn_ptr_aliases(file: &syn::File) {
+    struct V;
+    impl<'ast> syn::visit::Visit<'ast> for V {
+        fn visit_local(&mut self, l: &'ast syn::Local) {
+            if let Some(init) = &l.init {
+                let name = match &l.pat {
+                    syn::Pat::Ident(i) => Some(i.ident.to_string()),
+                    syn::Pat::Type(t) => match &*t.pat {
+                        syn::Pat::Ident(i) => Some(i.ident.to_string()),
+                        _ => None,
+                    },
+                    _ => None,
+                };
+                if let Some(n) = name {
+                    let t = toks(&init.expr);
+                    if t.starts_with("Signal ::") || t.contains("Signal :: new") {
+                        PTR_ALIAS.with(|m| m.borrow_mut().insert(n, "sig".into()));
+                    } else if t.starts_with("MaybeUninit") || t.starts_with("core :: mem :: MaybeUninit") {
+                        PTR_ALIAS.with(|m| m.borrow_mut().insert(n, "ret".into()));
+                    }
+                }
+            }
+            syn::visit::visit_local(self, l);
+        }
+        fn visit_item_struct(&mut self, st: &'ast syn::ItemStruct) {
+            for f in st.fields.iter() {
+                if let Some(id) = &f.ident {
+                    let t = toks(&f.ty);
+                    if t.starts_with("Signal <") || t.starts_with("Signal<") {
+                        PTR_ALIAS.with(|m| m.borrow_mut().insert(id.to_string(), "sig".into()));
+                    } else if t.starts_with("MaybeUninit") {
+                        PTR_ALIAS.with(|m| m.borrow_mut().insert(id.to_string(), "data".into()));
+                    }
+                }
+            }
+        }
+    }
+    let mut v = V;
+    syn::visit::Visit::visit_file(&mut v, file);
+    // macro bodies (impl items) too
+    for item in &file.items {
+        if let Item::Macro(mc) = item {
+            if let Some(body) = last_brace_group(mc.mac.tokens.clone()) {
+                let wrapped: TokenStream = format!("impl X {{ {} }}", body).parse().unwrap_or_default();
+                if let Ok(im) = syn::parse2::<syn::ItemImpl>(wrapped) {
+                    syn::visit::Visit::visit_item_impl(&mut v, &im);
+                }
+            }
+        }
+    }
+}
+
+thread_local! {
     /// parameterless `fn name<T>() -> bool { <one expression over size_of> }` helpers: name -> body
     static SIZE_PREDS: std::cell::RefCell<BTreeMap<String, Expr>> = std::cell::RefCell::new(BTreeMap::new());
 }
@@ -883,7 +948,8 @@ fn main() {
         }
         let called = aut::called_names(&fns);
         for f in &fns {
-            if !f.exported && called.contains(&f.name) {
+            let helper = !f.in_trait && called.contains(&f.name) && (!f.exported || f.ty.is_empty());
+            if helper || (!f.exported && !f.in_trait) {
                 continue;
             }
             let c = aut::automaton(&fns, f);
@@ -944,8 +1010,11 @@ fn main() {
         }
         let called = aut::called_names(&fns);
         for f in &fns {
-            if !f.exported && called.contains(&f.name) {
-                continue; // a private helper: inlined where it is called
+            // entries: trait methods, methods of the types, and free functions nobody in these files calls;
+            // private helpers and free functions called from here (spin_cond, wherever it lives) are inlined
+            let helper = !f.in_trait && called.contains(&f.name) && (!f.exported || f.ty.is_empty());
+            if helper || (!f.exported && !f.in_trait) {
+                continue;
             }
             let c = aut::automaton(&fns, f);
             if !c.has_protocol_event {
@@ -1003,6 +1072,8 @@ fn main() {
             }
         }
     }
+    site_rows.sort();
+    skel_rows.sort();
     writeln!(sites, "Definition atomic_sites : list asite := [\n{}\n].\n", site_rows.join(";\n")).unwrap();
     let mut consts: Vec<String> = vec![];
     for item in &parsed["signal.rs"].items {
@@ -1060,6 +1131,9 @@ fn main() {
     for f in ["pointer.rs", "lib.rs", "future.rs"] {
         collect_size_preds(&parsed[f]);
     }
+    for f in ["lib.rs", "future.rs"] {
+        learn_ptr_aliases(&parsed[f]);
+    }
     let mut ptr = String::new();
     writeln!(ptr, "(* generated by kx from /repo/src - do not edit *)\nFrom Coq Require Import String List.\nFrom KV Require Import PtrBase.\nImport ListNotations.\nOpen Scope string_scope.\n").unwrap();
     let mut prow: Vec<String> = vec![];
@@ -1082,7 +1156,24 @@ fn main() {
         for fun in &funcs {
             let ds = ptrx::sites_of(&helpers, &fun.block);
             for (i, t) in ds.iter().enumerate() {
-                prow.push(format!("  ({}, {})", coq_str(&format!("{}.{}#{}", f.trim_end_matches(".rs"), fun.name, i)), coq_ptree(t)));
+                // the private helpers of the futures that read / destroy the value kept in the future are named by what
+                // they do, not by what they are called
+                let text = coq_ptree(t);
+                let simple = fun.name.rsplit('.').next().unwrap_or("").to_string();
+                let mut name = fun.name.clone();
+                if !["new", "poll", "recv", "recv_timeout", "send", "send_timeout", "drop", "poll_next"].contains(&simple.as_str()) {
+                    let role = if text.contains("ptr::read") {
+                        Some("read_local_data")
+                    } else if text.contains("assume_init_drop") {
+                        Some("drop_local_data")
+                    } else {
+                        None
+                    };
+                    if let Some(r) = role {
+                        name = format!("{}.{}", fun.name.rsplitn(2, '.').nth(1).unwrap_or(""), r);
+                    }
+                }
+                prow.push(format!("  ({}, {})", coq_str(&format!("{}.{}#{}", f.trim_end_matches(".rs"), name, i)), text));
             }
         }
     }
